@@ -71,6 +71,20 @@ def result_in_working_precision(ctx, rep, rule: str) -> None:
     rep.floor(rule, "dtype conversions inside the eigenvector routines", n, 1)
 
 
+def ordering_is_unconditional(ctx, rep, rule: str) -> None:
+    """The columns of the QR result are ALWAYS put in ascending Rayleigh-quotient order: the permutation by `argsort` of the
+    estimated eigenvalues is a top-level statement of the routine after the iteration, on every path to the return — not under
+    a tolerance test or any other condition."""
+    repo = ctx.repo
+    fi = repo.func("matrix_functions:_compute_orthogonal_iterations")
+    sorts = [n for n in ast.walk(fi.node) if isinstance(n, ast.Assign) and any(isinstance(c.func, ast.Attribute) and c.func.attr in ("argsort", "sort") for c in A.calls(n, nested=True))]
+    top = [n for n in fi.node.body if any(n is s for s in sorts)]
+    loops = [i for i, n in enumerate(fi.node.body) if isinstance(n, (ast.While, ast.For))]
+    rets = [i for i, n in enumerate(fi.node.body) if isinstance(n, ast.Return)]
+    ok = len(sorts) == 1 and len(top) == 1 and bool(loops) and bool(rets) and loops[-1] < fi.node.body.index(top[0]) < rets[-1]
+    rep.ob(rule, "ordering-is-unconditional", ok, fi.loc(sorts[0]) if sorts else fi.loc(), f"{len(sorts)} argsort permutation(s), {len(top)} at the top level of the routine between the iteration and the final return: the ascending order holds for every input (no tolerance gate)", sample=True)
+
+
 def defaults_agree_with_configs(ctx, rep, rule: str) -> None:
     """Duplicated defaults: a parameter of a matrix routine that has the name of a config-dataclass field (the dispatchers forward
     the config's fields as keyword arguments) must have that field's default — a caller that relies on the signature default
@@ -134,6 +148,7 @@ def run(ctx, rep) -> None:
     rep.attempt("exact_diagonal_flag", exact_diagonal_flag, ctx, rep, "C12.2")
     rep.attempt("eigenvector_dispatch", eigenvector_dispatch, ctx, rep, "C12.3")
     rep.attempt("qr_iteration_arithmetic", qr_iteration_arithmetic, ctx, rep, "C12.4")
+    rep.attempt("ordering_is_unconditional", ordering_is_unconditional, ctx, rep, "C12.4")
     from .common import tensor_arguments_are_inputs
 
     rep.rule("C12.5", "the eigenvector routines are functions of their tensor arguments (matrix and estimate are never written in place); the basis is returned in the working precision of the matrix")
